@@ -39,6 +39,9 @@ type rRec struct {
 	Kind     string `json:"kind"` // read | readexp | index
 	Key      string `json:"key"`
 	Late     bool   `json:"late"`
+	Conn     int    `json:"conn"` // which of the burst's caches / cached conns the reader goes through
+	Ctx      string `json:"ctx"`  // kind of the reader's context (cancelled after its call returned unless background/values)
+	st       store
 	Inv, Ret uint64
 	Got      row    `json:"got"`
 	Err      string `json:"err"`
@@ -105,6 +108,15 @@ func burst(w *world, c *kit.Case) {
 	if h.dead {
 		return
 	}
+	// half of the bursts spread their readers over 2-4 caches / cached conns on the
+	// same store, created the way applications create them (one per model struct):
+	// load suppression is promised per key, not per conn object
+	if r.Chance(0.5) {
+		for i, n := 1, r.Range(2, 4); i < n; i++ {
+			st, how := h.mkStore(r.Chance(0.3))
+			h.sts, h.made = append(h.sts, st), append(h.made, how)
+		}
+	}
 	mode := []string{"row", "notfound", "error", "mixed", "outage"}[r.Pick(8, 3, 3, 3, 1)]
 	nReaders := r.Range(2, 8)
 	nKeys := 1 + r.Pick(3, 1)
@@ -134,6 +146,9 @@ func burst(w *world, c *kit.Case) {
 		if !rr.Late {
 			early++
 		}
+		rr.Conn = r.Intn(len(h.sts))
+		rr.st = h.sts[rr.Conn]
+		rr.Ctx = []string{ctxBG, ctxCancel, ctxDeadline, ctxValues}[r.Pick(3, 4, 2, 1)]
 		readers[i] = rr
 		coins[i] = []float64{r.Float64(), r.Float64(), r.Float64()}
 		delays[i] = time.Duration(r.Intn(1500)) * time.Microsecond
@@ -163,17 +178,19 @@ func burst(w *world, c *kit.Case) {
 			}
 			nq := 0
 			coin := func() float64 { nq++; return coins[i][(nq-1)%3] }
+			ctx, after := opCtx(rr.Ctx, h.prefix)
 			rr.Inv = kit.Stamp()
 			invoked.Add(1)
 			switch rr.Kind {
 			case "index":
-				rr.Got, rr.err = burstIndex(h, d, rr, slot, coin)
+				rr.Got, rr.err = burstIndex(ctx, h, d, rr, slot, coin)
 			case "readexp":
-				rr.Got, rr.err = burstRead(h, d, rr, slot, coin, true)
+				rr.Got, rr.err = burstRead(ctx, h, d, rr, slot, coin, true)
 			default:
-				rr.Got, rr.err = burstRead(h, d, rr, slot, coin, false)
+				rr.Got, rr.err = burstRead(ctx, h, d, rr, slot, coin, false)
 			}
 			rr.Ret = kit.Stamp()
+			after()
 		}(i, rr)
 	}
 	// causal release: the gate opens only after every early reader has been invoked
@@ -203,24 +220,24 @@ func burst(w *world, c *kit.Case) {
 	checkBurst(h, d, c, mode, readers)
 }
 
-func burstRead(h *hist, d *burstDB, rr *rRec, slot int, coin func() float64, exp bool) (row, error) {
+func burstRead(ctx context.Context, h *hist, d *burstDB, rr *rRec, slot int, coin func() float64, exp bool) (row, error) {
 	var v row
 	var err error
-	switch st := h.st.(type) {
+	switch st := rr.st.(type) {
 	case *cacheStore:
 		if exp {
-			err = st.c.TakeWithExpireCtx(hctx, &v, rr.Key, func(val any, _ time.Duration) error {
+			err = st.c.TakeWithExpireCtx(ctx, &v, rr.Key, func(val any, _ time.Duration) error {
 				_, e := d.query(rr, rr.Key, slot, val, coin())
 				return e
 			})
 		} else {
-			err = st.c.TakeCtx(hctx, &v, rr.Key, func(val any) error {
+			err = st.c.TakeCtx(ctx, &v, rr.Key, func(val any) error {
 				_, e := d.query(rr, rr.Key, slot, val, coin())
 				return e
 			})
 		}
 	case *sqlStore:
-		err = st.cc.QueryRowCtx(hctx, &v, rr.Key, func(_ context.Context, _ sqlxConn, val any) error {
+		err = st.cc.QueryRowCtx(ctx, &v, rr.Key, func(_ context.Context, _ sqlxConn, val any) error {
 			_, e := d.query(rr, rr.Key, slot, val, coin())
 			return e
 		})
@@ -228,10 +245,10 @@ func burstRead(h *hist, d *burstDB, rr *rRec, slot int, coin func() float64, exp
 	return v, err
 }
 
-func burstIndex(h *hist, d *burstDB, rr *rRec, slot int, coin func() float64) (row, error) {
+func burstIndex(ctx context.Context, h *hist, d *burstDB, rr *rRec, slot int, coin func() float64) (row, error) {
 	var v row
-	st := h.st.(*sqlStore)
-	err := st.cc.QueryRowIndexCtx(hctx, &v, rr.Key, h.keyer,
+	st := rr.st.(*sqlStore)
+	err := st.cc.QueryRowIndexCtx(ctx, &v, rr.Key, h.keyer,
 		func(_ context.Context, _ sqlxConn, val any) (any, error) {
 			return d.query(rr, rr.Key, slot, val, coin())
 		},
